@@ -94,10 +94,12 @@ def embed(case, rank, pos, coord_kind, coord_name, rng, partial_nan=False):
     elif coord_kind == "degrees":
         cx = np.array(xp, dtype="float64")
         tx = np.array(case["x"], dtype="float64")
-    else:  # time: half-hour units from a base instant
+    else:  # time: half-hour units from a base instant; the axis may be stored in ns, s or ms, the targets likewise
         base = np.datetime64("2021-03-04T05:00:00", "s")
-        cx = np.array([base + np.timedelta64(1800 * int(v), "s") for v in xp]).astype("datetime64[ns]")
-        tx = np.array([base + np.timedelta64(1800 * int(v), "s") for v in case["x"]]).astype("datetime64[ns]")
+        unit_axis = {"time": "ns", "time_s": "s", "time_ms": "ms"}[coord_kind]
+        unit_tgt = rng.choice(["ns", "s", "ms"])
+        cx = np.array([base + np.timedelta64(1800 * int(v), "s") for v in xp]).astype("datetime64[%s]" % unit_axis)
+        tx = np.array([base + np.timedelta64(1800 * int(v), "s") for v in case["x"]]).astype("datetime64[%s]" % unit_tgt)
     coords = {coord_name: cx}
     for i, d in enumerate(dims):
         if d != coord_name:
